@@ -346,6 +346,51 @@ func (p *Program) VerifyFunction(id string) (res *FuncResult) {
 			Reach: x.reach, Cond: True, NAssume: len(e.assumes), Expect: "sat", Pos: e.posString(x.instr.Pos())}
 		e.obls = append(e.obls, c)
 	}
+	if fc != nil && fc.ErrorsPropagated {
+		// the function adds no rejection of its own: a returned error stems from a failed call on the same path
+		// (error constructors do not count, wrapping a callee's error does)
+		var lbls []string
+		for l := range e.labels {
+			lbls = append(lbls, l)
+		}
+		sort.Strings(lbls)
+		for k, x := range exits {
+			if len(x.results) == 0 {
+				continue
+			}
+			last := x.results[len(x.results)-1]
+			if !isErrorType(last.T) || len(last.L) != 2 {
+				continue
+			}
+			cause := False
+			for _, l := range lbls {
+				cl := e.labels[l]
+				if cl == nil || len(cl.Results) == 0 || strings.HasPrefix(l, "New#") || strings.HasPrefix(l, "Errorf#") || strings.Contains(l, ".New#") || strings.Contains(l, ".Errorf#") {
+					continue
+				}
+				// legitimate causes: library and interface calls, and repo functions that are themselves marked
+				// errors_propagated or validator; an (inlined) helper without contract is not one
+				if strings.HasPrefix(cl.Callee, "inlined:") {
+					continue
+				}
+				if _, isRepo := p.Funcs[cl.Callee]; isRepo {
+					cc := p.lookupContract(cl.Callee)
+					if cc == nil || !(cc.ErrorsPropagated || cc.Validator) {
+						continue
+					}
+				}
+				lr := cl.Results[len(cl.Results)-1]
+				if !isErrorType(lr.T) || len(lr.L) != 2 {
+					continue
+				}
+				cause = Or(cause, And(cl.Reach, Not(Eq(lr.L[0], IntLit(0)))))
+			}
+			if p := x.instr.Pos(); p.IsValid() {
+				e.curPos = p
+			}
+			e.oblige("post", fmt.Sprintf("post.errors_propagated@return%d", k+1), "a non-nil error is returned although no call on this path failed (the contract says this function rejects nothing on its own)", x.reach, Or(Eq(last.L[0], IntLit(0)), cause), nil)
+		}
+	}
 	for k, x := range exits {
 		if fc != nil {
 			checkPost(fc, bind, k+1, x, "")
@@ -362,6 +407,24 @@ func (p *Program) VerifyFunction(id string) (res *FuncResult) {
 	if fc != nil && (fc.HasAssign || fc.Pure) && !fc.TrustFrame {
 		for k, x := range exits {
 			e.checkFrameAt(fn, fc, bind, k+1, x)
+		}
+		// lock-guarded fields are outside the semantic frame check (other goroutines may change them while the lock
+		// is not held), so the writes of this function itself are checked against its assigns clause by name
+		allowed := e.P.expandAssigns(fc)
+		var gw []string
+		for c := range e.guardedWrites {
+			gw = append(gw, c)
+		}
+		sort.Strings(gw)
+		for _, c := range gw {
+			ok := allowed.all
+			for _, a := range allowed.comps {
+				if c == a || strings.HasPrefix(c, a) {
+					ok = true
+				}
+			}
+			e.curPos = fn.Pos()
+			e.oblige("frame", "frame.guarded."+strings.TrimPrefix(c, "H."), "writes the lock-guarded field "+strings.TrimPrefix(c, "H.")+" ("+e.guardedWrites[c]+") although the assigns clause does not list it", True, BoolLit(ok), nil)
 		}
 	}
 	if fc != nil && fc.NoGlobals {
@@ -704,6 +767,9 @@ func (e *Engine) lockCheck(st *State, reach Term, a *Addr, write bool) {
 		return // object under construction, not yet published
 	}
 	what := named.Obj().Name() + "." + fname
+	if _, guarded := tc.Guarded[fname]; guarded && write {
+		e.noteGuardedWrite("H."+named.Obj().Pkg().Name()+"."+named.Obj().Name()+"."+fname, "at "+e.posString(token.NoPos))
+	}
 	if lockField, guarded := tc.Guarded[fname]; guarded {
 		// the lock is the value of the owner's lock field (pointer) or its address (embedded)
 		var m Term
@@ -829,6 +895,15 @@ func (e *Engine) ownedCallCheck(st *State, reach Term, recv Val, method string) 
 	key := "lock.held@" + rec.what + "." + method
 	e.kindOrd[key]++
 	e.oblige("lock.held", fmt.Sprintf("%s#%d", key, e.kindOrd[key]), "call of "+method+" on the object owned through "+rec.what+" without holding its lock ("+mode+" mode needed)", reach, cond, nil)
+}
+
+func (e *Engine) noteGuardedWrite(comp, how string) {
+	if e.guardedWrites == nil {
+		e.guardedWrites = map[string]string{}
+	}
+	if _, ok := e.guardedWrites[comp]; !ok {
+		e.guardedWrites[comp] = how
+	}
 }
 
 func (e *Engine) lockCheckMap(st *State, reach Term, m ssa.Value, write bool) {}
